@@ -2996,6 +2996,14 @@ impl<'a, R: FileManager> FrontendCtx<'a, R> {
         }
     }
 
+    /// the text a template segment denotes (`\\` is one backslash), not its source spelling
+    fn tpl_quasi_text(quasis: &swc_ecma_ast::TplElement) -> String {
+        match &quasis.cooked {
+            Some(cooked) => cooked.to_string_lossy().to_string(),
+            None => quasis.raw.to_string(),
+        }
+    }
+
     fn convert_ts_tpl_lit_type_non_trivial(
         &mut self,
         it: &TsTplLitType,
@@ -3011,7 +3019,7 @@ impl<'a, R: FileManager> FrontendCtx<'a, R> {
             if selecting_quasis {
                 let quasis = &it.quasis[quasis_idx];
                 quasis_idx += 1;
-                acc.push(TplLitTypeItem::StringConst(quasis.raw.to_string()));
+                acc.push(TplLitTypeItem::StringConst(Self::tpl_quasi_text(quasis)));
                 selecting_quasis = false;
             } else {
                 let type_ = &it.types[types_idx];
@@ -3038,7 +3046,7 @@ impl<'a, R: FileManager> FrontendCtx<'a, R> {
             Ok(Runtype::single_string_const(
                 &it.quasis
                     .iter()
-                    .map(|it| it.raw.to_string())
+                    .map(Self::tpl_quasi_text)
                     .collect::<String>(),
             ))
         }
